@@ -51,8 +51,10 @@ def main():
             msgs = run_checkables(checkables)
             res['paths'] = stats.get('num_paths', 0)
             states = [m.state for m in msgs]
-            res['messages'] = [{'state': m.state.name, 'message': m.message[:2000]} for m in msgs]
-            if any(s in (MessageType.POST_FAIL, MessageType.EXEC_ERR, MessageType.POST_ERR) for s in states):
+            res['messages'] = [{'state': m.state.name, 'message': m.message[:2000], 'tb': (m.traceback or '')[-1500:]} for m in msgs]
+            if any('NotDeterministic' in (m.message or '') for m in msgs):
+                res['status'] = 'engine_error'
+            elif any(s in (MessageType.POST_FAIL, MessageType.EXEC_ERR, MessageType.POST_ERR) for s in states):
                 res['status'] = 'refuted'
                 cex = dict(ep.LAST_COUNTEREXAMPLE)
                 try:
